@@ -3,6 +3,7 @@ package main
 import (
 	"fmt"
 	"os"
+	"runtime/pprof"
 )
 
 func main() {
@@ -15,6 +16,14 @@ func main() {
 		fmt.Printf("loaded in %.2fs; init steps %d; base objects %d; fns %d\n", w.loadS, w.nInit, len(w.base.heap), len(w.fns))
 		smoke(w)
 		return
+	}
+	if pf := os.Getenv("VF_PROF"); pf != "" && len(os.Args) > 1 && os.Args[1] == "-worker" {
+		f, _ := os.Create(pf)
+		pprof.StartCPUProfile(f)
+		rc := runMain()
+		pprof.StopCPUProfile()
+		f.Close()
+		os.Exit(rc)
 	}
 	os.Exit(runMain())
 }
